@@ -378,9 +378,15 @@ def handle : Handler := fun s =>
     let detail := if !corr && detail.isEmpty then
         mdetail ++ " fea=" ++ ((((s.field1? "fea").bind Sexp.asString?).getD "").replace "\n" " ⏎ ")
       else detail ++ mdetail
-    some { corr := some corr, oracle := some oracle, nontrivial := changed && rules.length ≥ 2,
-           cls := if !oracle then attribution else if !corr then "model-differs-from-real" else "",
-           tags := tags ++ wtags ++ stags ++ [s!"strings{nStrings / 1000}k"], detail := detail }
+    -- a program the generator let slip outside the modelled subset (e.g. a repeated identical `lookupflag` statement does
+    -- not start a new lookup, so a glyph is targeted twice in one lookup: fea-rs, like fontTools, lets the last rule win)
+    -- is not covered by the claim: the behavioural comparison with the rule-by-rule source semantics is not applicable
+    -- there (the model-vs-real correspondence still is)
+    let outside := !oracle && attribution.startsWith "outside-subset-"
+    some { corr := some corr, oracle := if outside then none else some oracle, nontrivial := changed && rules.length ≥ 2,
+           cls := if outside then "" else if !oracle then attribution else if !corr then "model-differs-from-real" else "",
+           tags := tags ++ wtags ++ stags ++ [s!"strings{nStrings / 1000}k"] ++ (if outside then ["outside-subset-not-judged"] else []),
+           detail := detail }
   r.getD (badInput "c11: cannot parse case")
 
 end Fontc.Driver.C11
